@@ -67,3 +67,11 @@ func dumpFunc(p *Program, name string) {
 		dumpFunc(p, p.fnName(an))
 	}
 }
+
+func debugTransparent(p *Program) {
+	for _, fn := range p.AllFuncs {
+		if p.transparent(fn) {
+			fmt.Println("transparent:", p.fnName(fn), "host:", p.hostName(fn))
+		}
+	}
+}
